@@ -61,3 +61,36 @@ PROP["manifest"]["level_text"] += (
     "clause is false with a future threshold, because checkTimestamp is deferred to the end of a multi-update notification: an update "
     "rejected as future inside the notification is accepted when the units are sent separately (multi_ne_units_future, "
     "not_multiEqUnitsAtGnmiUpdate; the Go code behaves the same: corpus/C03/multi_vs_units_future.ops).")
+# --- round 2 (builder bVALEQ): multi = units at Target.GnmiUpdate level without a future threshold (Props/C03MultiNoThr.lean);
+# the caller's notification object (Model/CacheMut.lean, Props/C03Unmodified.lean)
+PROP["modules"] += ["Gnmi.Props.C03MultiNoThr", "Gnmi.Model.CacheMut", "Gnmi.Props.C03Unmodified"]
+PROP["theorems"] += ["Gnmi.C03." + t for t in [
+    "dispatch_setLatest", "dispatch_latest", "gnmiUpdate_setLatest", "seqGnmiUpdate_follows", "seqGnmiUpdate_latest",
+    "multi_eq_units_at_gnmiUpdate_no_threshold", "multi_eq_units_at_gnmiUpdate_no_threshold_full",
+    "multiEqUnitsAtGnmiUpdate_noThr", "latest_differs_meta_first", "latest_differs_meta_second", "not_full_with_meta"]] + [
+    "Gnmi.CacheMut." + t for t in [
+    "caller_notification_restored", "restored_on_panic", "shared_prefix_untouched", "cleared_while_running",
+    "clone_fresh_header_and_prefix", "clone_shares_update_object", "clone_never_aliases_false",
+    "single_update_stores_callers_object", "inv_step", "reaches_done"]]
+PROP["manifest"]["level_text"] += (
+    " Without a future threshold (cfg.futureThr <= 0) the clause 'multi = units' holds at Target.GnmiUpdate level too "
+    "(multi_eq_units_at_gnmiUpdate_no_threshold): same feed event groups, same tree, counters and sync flag for every state, clock and "
+    "non-panicking notification; dispatch neither reads nor writes the latest timestamp then (dispatch_setLatest). Only the latest "
+    "timestamp may differ, because the deferred checkTimestamp is armed by Update[0] alone: witnesses latest_differs_meta_first / "
+    "_second (first update under meta/ and a later one not, and the reverse), checked against the Go code by "
+    "corpus/C03/multi_vs_units_latest.ops; with no update under meta/ the targets are equal, latest timestamp included "
+    "(multi_eq_units_at_gnmiUpdate_no_threshold_full). Caller's notification (Model/CacheMut.lean: heap of message objects, small-step "
+    "machine for the one place where Target.GnmiUpdate writes through its argument - n.Update, n.Delete = nil, nil with the deferred "
+    "restore): caller_notification_restored - for every heap, notification and outcome of the calls made on the way, rejections and a "
+    "panic inside either loop included (the defer still runs), every object that existed before the call has its initial content "
+    "afterwards: the caller's notification, its prefix object whoever shares it, its update messages; cleared_while_running - during the "
+    "loops the caller's notification is observably empty; clone_fresh_header_and_prefix / clone_shares_update_object - each unit stored "
+    "and fed is a fresh notification with a fresh prefix object (proto.Clone is deep) but carries the caller's own *pb.Update object by "
+    "pointer (clone_never_aliases_false); single_update_stores_callers_object - the single-update and atomic arms store and feed the "
+    "caller's own notification object.")
+PROP["manifest"]["level_text"] += (
+    " The object-level statements are tied to the code by the monitor op `ca own` (go/vcorr/ca_own.go, corpus/C03/caller_object_identity.ops): "
+    "with pointer comparisons on the real cache it checks that the restored slices hold the caller's own pointers, that the caller's "
+    "notification is empty inside the client callback of a multi notification, that multi units are fresh notifications with a fresh "
+    "prefix object carrying the caller's own *pb.Update object, and that single-update / atomic notifications are stored and fed as the "
+    "caller's own object; also with a second notification sharing the prefix object.")
